@@ -15,7 +15,7 @@ RULE = ('Hypothesis draws message (body class incl. empty/block-boundary/binary/
         'encryptor (SKESK with/without encrypted session key, salted/iterated S2K, PKESK RSA/ECDH, SEIPD or tag-9 container, old/new/'
         'partial inner headers) and PGPy decrypts. Non-trivial: >=2 recipients, or non-default cipher/compression, or body > one '
         'cipher block, or foreign-produced; distinct by (direction, cipher, recipient kinds, compression, body class).')
-RULE += ' Backward cases include an SKESK whose own cipher differs (also in key size) from the data cipher.'
+RULE += ' Backward cases include an SKESK whose own cipher differs (also in key size) from the data cipher. Inner packets also with old-format indeterminate lengths; ECDH session keys padded to 40/48 octets (RFC 6637 8); RSA recipients whose modulus length is not a multiple of 8 bits; messages exported before being signed; the export of the decrypted message must be a grammar-conformant message (no MDC leftovers).'
 ASSUMPTIONS = ['refpgp.enc is an independent RFC 4880 5.1/5.3/5.13/13.9 + RFC 6637 + RFC 3394 implementation sharing only block ciphers, '
                'RSA/ECDH primitives and hashlib with PGPy', 'a supplied session key has exactly the cipher key size (documented precondition)',
                'literal time compared at the wire resolution of one second']
